@@ -160,6 +160,20 @@ impl BTreeSet<usize> {
             r == (if old(self)@.contains(*v) { Some(*v) } else { None::<usize> }),
     { unimplemented!() }
 
+    /// std `BTreeSet::remove`: "If the set contains an element equal to the value, removes it from the set and
+    /// drops it. Returns whether such an element was present."  (not used by the pinned code; declared so that an
+    /// edited body using it is decided instead of rejected)
+    #[verifier::external_body]
+    pub fn remove(&mut self, v: &usize) -> (r: bool)
+        ensures final(self)@ == old(self)@.remove(*v), r == old(self)@.contains(*v)
+    { unimplemented!() }
+
+    /// std `BTreeSet::contains`
+    #[verifier::external_body]
+    pub fn contains(&self, v: &usize) -> (r: bool)
+        ensures r == self@.contains(*v)
+    { unimplemented!() }
+
     /// std `BTreeSet::is_empty`: "Returns true if the set contains no elements."
     #[verifier::external_body]
     pub fn is_empty(&self) -> (r: bool)
